@@ -53,6 +53,13 @@ CLAIMED = {
     technique="Coq proof (permutation under interleaving) + strace syscall-pattern correspondence"),
 }
 
+# properties built by the round-2 builders deliver their manifest text as notes/manifest-Cxx.json
+import glob as _glob
+for _f in sorted(_glob.glob(os.path.join(V, "notes", "manifest-C*.json"))):
+    _p = os.path.basename(_f)[len("manifest-"):-len(".json")]
+    if os.path.exists(os.path.join(V, "checks", _p.lower() + ".py")):
+        CLAIMED[_p] = json.load(open(_f))
+
 PENDING_REASON = "not claimed yet: the Coq model and its tie for this property are not built at this commit (planned, see DESIGN.md section 12)"
 
 
